@@ -323,12 +323,100 @@ def _jit_histories(nn, jnp, jax, fails, tier):
   return cases
 
 
+def _method_transforms(nn, jnp, jax, fails, tier):
+  """a parent's stateful child used directly before, inside and directly after a lifted helper
+  method / control-flow construct, and the same helper called several times (rng draws inside)"""
+  cases = 0
+  x = jnp.linspace(0.5, 2.0, 4)
+
+  class Acc(nn.Module):
+    @nn.compact
+    def __call__(self, x):
+      count = self.variable('state', 'count', lambda: jnp.zeros((), jnp.int32))
+      total = self.variable('state', 'total', lambda: jnp.zeros((), jnp.float32))
+      count.value = count.value + 1
+      total.value = total.value * 2.0 + jnp.sum(x)
+      return x + total.value
+
+  def make(kind):
+    def _step(self, x):
+      return self.acc(x)
+
+    def _noisy(self, x):
+      return x + jax.random.normal(self.make_rng('noise'), x.shape)
+    if kind == 'plain':
+      step, noisy = _step, _noisy
+    elif kind == 'remat':
+      step, noisy = nn.remat(_step), nn.remat(_noisy)
+    elif kind == 'jit':
+      step, noisy = nn.jit(_step), _noisy
+    elif kind == 'map_variables':
+      step, noisy = nn.map_variables(_step, 'state', mutable=True), nn.map_variables(_noisy, 'state', mutable=True)
+    elif kind == 'cond':
+      noisy = _noisy
+
+      def step(self, x):
+        return nn.cond(True, lambda m, x: m.acc(x), lambda m, x: m.acc(x) * 0.0, self, x)
+    elif kind == 'switch':
+      noisy = _noisy
+
+      def step(self, x):
+        return nn.switch(1, [lambda m, x: m.acc(x) * 0.0, lambda m, x: m.acc(x)], self, x)
+    elif kind == 'while_loop':
+      noisy = _noisy
+
+      def step(self, x):
+        def cond_fn(m, c):
+          return c[0] < 1
+
+        def body_fn(m, c):
+          return (c[0] + 1, m.acc(c[1]))
+        return nn.while_loop(cond_fn, body_fn, self, (0, x), carry_variables='state')[1]
+
+    class Parent(nn.Module):
+      def setup(self):
+        self.acc = Acc()
+
+      def __call__(self, x):
+        y = self.acc(x)          # directly before
+        y = self.step(y)         # inside the lifted construct
+        y = self.acc(y)          # directly after
+        y = self.noisy(y)        # the same helper twice: the second call must draw another key
+        y = self.noisy(y)
+        return y + jax.random.normal(self.make_rng('noise'), y.shape)
+    Parent.step = step
+    Parent.noisy = noisy
+    return Parent()
+  rngs = {'params': jax.random.key(0), 'noise': jax.random.key(4)}
+  plain = make('plain')
+  v0 = plain.init(rngs, x)
+  want_y, want_upd = plain.apply(v0, x, rngs={'noise': jax.random.key(5)}, mutable=['state'])
+  for kind in ('remat', 'jit', 'map_variables', 'cond', 'switch', 'while_loop'):
+    cases += 1
+    inp = dict(program='child used before / inside / after a lifted method; helper with rng draws called twice', transform=kind)
+    m = make(kind)
+    try:
+      v = m.init(rngs, x)
+      if not _close(v, v0):
+        fails.append(dict(inputs=dict(inp, phase='init'), observed=f'init tree / values differ from the plain module: {jax.tree_util.tree_map(np.asarray, v)} vs {jax.tree_util.tree_map(np.asarray, v0)}'[:300], violated='init-values-equal'))
+        continue
+      y, upd = m.apply(v0, x, rngs={'noise': jax.random.key(5)}, mutable=['state'])
+    except Exception as e:  # noqa
+      fails.append(dict(inputs=inp, observed=f'raised {e!r}'[:300], violated='outputs-equal'))
+      continue
+    if not _close(dict(upd), dict(want_upd)):
+      fails.append(dict(inputs=inp, observed=f'updated state {jax.tree_util.tree_map(np.asarray, dict(upd))} differs from the plain code {jax.tree_util.tree_map(np.asarray, dict(want_upd))}'[:300], violated='mutable-updates-equal'))
+    elif kind != 'jit' and not _close(y, want_y):
+      fails.append(dict(inputs=inp, observed='outputs (incl. random draws) differ from the plain code', violated='outputs-equal'))
+  return cases
+
+
 def run(tier, seed):
   import jax
   import jax.numpy as jnp
   import flax.linen as nn
   cases, fails = 0, []
-  for part in (_transform_grid, _control_flow, _jit_histories):
+  for part in (_transform_grid, _control_flow, _jit_histories, _method_transforms):
     try:
       cases += part(nn, jnp, jax, fails, tier)
     except Exception as e:  # noqa
@@ -338,7 +426,7 @@ def run(tier, seed):
       break
   return dict(name=NAME, cases=cases, distinct=cases,
               bound='transforms {jit, remat, map_variables(params), map_variables(all)} x mutable {False, [stats], True} x dropout {0, .5}; '
-                    'cond pred x mutable; switch index 0..2 x mutable; while_loop trips {0,1,3} x mutable; 5 jit call histories of 3 steps + variable-structure history',
+                    'cond pred x mutable; switch index 0..2 x mutable; while_loop trips {0,1,3} x mutable; 5 jit call histories of 3 steps + variable-structure history; method-level transforms {remat, jit, map_variables, cond, switch, while_loop} around a child used before/inside/after',
               failures=fails[:6], error=None)
 
 
